@@ -145,8 +145,17 @@ func runC10Case(seed int64, idx int) *c10Result {
 		plURL := baseURL + name
 		pl := &origin.Playlist{URL: plURL, TargetDuration: 1, OmitRangeStart: rangeMode == "nostart"}
 		p := &c10Playlist{url: plURL, stream: st, nSeg: nSeg, reqKey: map[string]int{}, segDone: map[int]int64{}}
+		supported := func(t *origin.Track) bool {
+			return container != "ts" || t.Kind == media.H264 || t.Kind == media.AAC
+		}
 		for i, t := range tracks {
-			if t.Kind.IsVideo() {
+			if supported(t) {
+				p.lead = i
+				break
+			}
+		}
+		for i, t := range tracks {
+			if supported(t) && t.Kind.IsVideo() {
 				p.lead = i
 				break
 			}
@@ -221,6 +230,21 @@ func runC10Case(seed int64, idx int) *c10Result {
 			}
 			tr = append(tr, at)
 		}
+		if container == "ts" && rng.Intn(3) == 0 {
+			// an elementary stream the client does not support, at any position of the PMT
+			var ut *origin.Track
+			if rng.Intn(2) == 0 {
+				ut = &origin.Track{Kind: media.H265, TimeScale: 90000, Params: media.DefaultParamSets(media.H265)[0], Base: t0*90000 + wrapAdj, SampleDur: 900, GOP: segSamples}
+			} else {
+				ut = &origin.Track{Kind: media.Opus, TimeScale: 90000, Base: t0*90000 + wrapAdj, SampleDur: 1800}
+			}
+			pos := rng.Intn(len(tr) + 1)
+			tr = append(tr[:pos], append([]*origin.Track{ut}, tr[pos:]...)...)
+			feats["ts-unsupported-stream"] = true
+			if pos == 0 {
+				feats["ts-unsupported-stream-first"] = true
+			}
+		}
 		if rng.Intn(3) == 0 && len(tr) > 1 && container == "fmp4" {
 			// the video track is not always the first track of the init segment
 			tr[0], tr[len(tr)-1] = tr[len(tr)-1], tr[0]
@@ -280,7 +304,10 @@ func runC10Case(seed int64, idx int) *c10Result {
 	}
 	var exp []expTrack
 	for _, p := range pls {
-		for ti := range p.stream.Tracks {
+		for ti, t := range p.stream.Tracks {
+			if container == "ts" && t.Kind != media.H264 && t.Kind != media.AAC {
+				continue // not supported by the client: must not be reported
+			}
 			exp = append(exp, expTrack{p, ti})
 		}
 	}
